@@ -209,3 +209,245 @@ Example c01_rules_example :
   REx.dump (fst (pfinal REx.sg1 (init 3, []) REx.ks1))
   = ([0; 0; 0; 2], [[([], VId 0, false)]; [([], VId 0, false)]; [([VId 0], VId 0, false)]]).
 Proof. exact RulesProofs.rex_ctor. Qed.
+
+(* ================================================================== *)
+(** * Mixed signatures: constructors + relations + lattice / old / new / no-merge functions
+
+    [is_ctor sg f]: table [f] is a constructor ([MUnionId]). [proj sg s]: the constructor part of
+    [s] (non-constructor tables emptied; same union-find and witnesses). [cterm_okb sg n t]:
+    [t] is a ground term over constructors [< n] of the signature (integer literals are leaves).
+    [prog_mixed_okb n sg ks] (executable; ANY signature [sg]): every top-level action and rule head
+    is an expression / union over constructor patterns, a [set] / [delete] on a NON-constructor
+    table (relation, min/max/or/and lattice function, :merge old/new, :no-merge) whose keys and
+    value are constructor patterns / integers, or a panic; rule BODIES are unrestricted (they match
+    relation rows and lattice values, which are keyed by e-class ids and re-keyed by rebuild). *)
+Require Import Verif.Egg.Mixed Verif.Egg.MixedProofs.
+
+(** this pins the fragment and the projection *)
+Theorem c01_mixed_defs_unfold :
+  (forall sg f, is_ctor sg f = match nth f sg MUnionId with MUnionId => true | _ => false end) /\
+  (forall sg s, uf (proj sg s) = uf s /\ wit (proj sg s) = wit s /\ length (tabs (proj sg s)) = length (tabs s) /\
+     forall f, get_tab (tabs (proj sg s)) f = if is_ctor sg f then get_tab (tabs s) f else []) /\
+  (forall sg n f l, cterm_okb sg n (T f l) = ((f <? n) && is_ctor sg f && forallb (cterm_okb sg n) l)%bool) /\
+  (forall sg n z, cterm_okb sg n (TI z) = true) /\
+  (forall n sg ks, prog_mixed_okb n sg ks = forallb (mkcmd_okb sg n) ks) /\
+  (forall sg n f ps v, mact_okb sg n (ASet f ps v)
+     = (negb (is_ctor sg f) && forallb (cpat_okb sg n) ps && cpat_okb sg n v)%bool) /\
+  (forall sg n p q, mact_okb sg n (AUnion p q) = (cpat_okb sg n p && cpat_okb sg n q)%bool) /\
+  (forall sg n f ps, mact_okb sg n (ASubsume f ps) = false).
+Proof.
+  repeat split; try reflexivity.
+  - apply MixedProofs.length_ptabs.
+  - intros f. apply MixedProofs.get_tab_ptabs.
+Qed.
+Print Assumptions c01_mixed_defs_unfold.
+
+(** a constructor term is evaluated on the constructor part only *)
+Theorem c01_mixed_eval_proj : forall sg n s t, cterm_okb sg n t = true -> eval (proj sg s) t = eval s t.
+Proof. exact MixedProofs.eval_proj. Qed.
+Print Assumptions c01_mixed_eval_proj.
+
+(** tables that are not constructors never stage a union — not on a [set], not in a rebuild pass
+    (whatever the merge function does with the two values) *)
+Theorem c01_mixed_no_union_staged : forall m, is_ctor_m m = false ->
+  (forall t r, snd (fst (tab_insert m t r)) = []) /\
+  (forall p rows acc, snd (fst (rebuild_rows p m rows acc)) = []).
+Proof.
+  intros m H. split; [intros t r; apply MixedProofs.tab_insert_non; exact H|].
+  intros p. apply MixedProofs.rebuild_rows_non. exact H.
+Qed.
+Print Assumptions c01_mixed_no_union_staged.
+
+(** the rebuild loop over a mixed signature is, on the constructor part, the constructor-only
+    loop: same number of passes, same unions, same outcome ([Ok] / panic / out of fuel) *)
+Theorem c01_mixed_rebuild_proj : forall sg fuel s,
+  match rebuild fuel sg s with
+  | Ok (s', _) => exists e', rebuild fuel [] (proj sg s) = Ok (proj sg s', e')
+  | Panic => rebuild fuel [] (proj sg s) = Panic
+  | OutOfFuel => rebuild fuel [] (proj sg s) = OutOfFuel
+  end.
+Proof. exact MixedProofs.rebuild_proj. Qed.
+Print Assumptions c01_mixed_rebuild_proj.
+
+(** Every state a mixed-fragment program passes through — after each command, and the state at
+    the point where a panic / ungrounded action / merge conflict stops it: its constructor part
+    is the result of a well-formed term-level history over constructor tables ([run []]: every
+    table a constructor) run from the empty database. *)
+Theorem c01_mixed_rules_history : forall n sg ks, prog_mixed_okb n sg ks = true ->
+  Forall (fun ps => exists cs, cmds_okb n cs = true /\ run [] (init n) cs = Ok (proj sg (fst ps)))
+         (ptrace sg (init n, []) ks) /\
+  (exists cs, cmds_okb n cs = true /\ run [] (init n) cs = Ok (proj sg (fst (fst (pfinal sg (init n, []) ks))))).
+Proof. exact MixedProofs.mixed_history. Qed.
+Print Assumptions c01_mixed_rules_history.
+
+(** ... nested: each program command extends the constructor part by a well-formed list of
+    term-level commands *)
+Theorem c01_mixed_rules_stepwise : forall n sg ks, prog_mixed_okb n sg ks = true ->
+  chain (fun ps ps' => exists cs, cmds_okb n cs = true /\ run [] (proj sg (fst ps)) cs = Ok (proj sg (fst ps')))
+        (init n, []) (ptrace sg (init n, []) ks).
+Proof. exact MixedProofs.mixed_stepwise. Qed.
+Print Assumptions c01_mixed_rules_stepwise.
+
+(** C01 after every command of every mixed-fragment program: in every visited state two
+    represented ground constructor terms have the same e-class iff they are in the congruence
+    closure of the unions of the history that produced the state. *)
+Theorem c01_mixed_rules_iff : forall n sg ks s, prog_mixed_okb n sg ks = true -> visited sg n ks s ->
+  exists cs, cmds_okb n cs = true /\ run [] (init n) cs = Ok (proj sg s) /\
+    forall t1 t2 v1 v2, cterm_okb sg n t1 = true -> cterm_okb sg n t2 = true ->
+      eval s t1 = Some v1 -> eval s t2 = Some v2 ->
+      (v1 = v2 <-> CC (unions_of cs) t1 t2).
+Proof. exact MixedProofs.mixed_iff_visited. Qed.
+Print Assumptions c01_mixed_rules_iff.
+
+(** no equality is invented *)
+Theorem c01_mixed_rules_sound : forall n sg ks s, prog_mixed_okb n sg ks = true -> visited sg n ks s ->
+  exists cs, cmds_okb n cs = true /\ run [] (init n) cs = Ok (proj sg s) /\
+    forall t1 t2 v, cterm_okb sg n t1 = true -> cterm_okb sg n t2 = true ->
+      eval s t1 = Some v -> eval s t2 = Some v -> CC (unions_of cs) t1 t2.
+Proof. exact MixedProofs.mixed_sound_visited. Qed.
+Print Assumptions c01_mixed_rules_sound.
+
+(** none that follows is missed once the command has returned *)
+Theorem c01_mixed_rules_complete : forall n sg ks s, prog_mixed_okb n sg ks = true -> visited sg n ks s ->
+  exists cs, cmds_okb n cs = true /\ run [] (init n) cs = Ok (proj sg s) /\
+    forall t1 t2 v1 v2, cterm_okb sg n t1 = true -> cterm_okb sg n t2 = true ->
+      CC (unions_of cs) t1 t2 -> eval s t1 = Some v1 -> eval s t2 = Some v2 -> v1 = v2.
+Proof. exact MixedProofs.mixed_complete_visited. Qed.
+Print Assumptions c01_mixed_rules_complete.
+
+(** non-vacuity: constructors a, b, f, c; [g] a min-lattice function keyed by an e-class id; [r] a
+    relation keyed by two e-class ids; a rule triggered by a relation row unions a~b, one triggered
+    by a lattice value unions f(x)~x; f(a)~f(b) follows by congruence, the g-rows merge through
+    min, the r-row is re-keyed; c stays apart; then a delete on the relation and a panic.
+    (class vectors of the probes a, b, f a, f b, f (f a), c, f c after each command) *)
+Example c01_mixed_example :
+  prog_mixed_okb 6 MEx.sg MEx.ks = true /\ prog_ctor_okb 6 MEx.sg MEx.ks = false /\
+  map (fun ps => class_vector (fst ps) MEx.probes) (ptrace MEx.sg (init 6, []) MEx.ks)
+  = [[0; -1; 2; -1; -1; -1; -1]; [0; 1; 2; 3; -1; -1; -1]; [0; 1; 2; 3; -1; 5; 6];
+     [0; 1; 2; 3; -1; 5; 6]; [0; 1; 2; 3; -1; 5; 6]; [0; 1; 2; 3; -1; 5; 6]; [0; 1; 2; 3; -1; 5; 6];
+     [0; 1; 2; 3; -1; 5; 6]; [0; 1; 2; 3; -1; 5; 6];
+     [0; 0; 0; 0; 0; 5; 6]; [0; 0; 0; 0; 0; 5; 6]; [0; 0; 0; 0; 0; 5; 6]]%Z /\
+  snd (pfinal MEx.sg (init 6, []) MEx.ks) = Some 1 /\
+  REx.dump (fst (pfinal MEx.sg (init 6, []) MEx.ks))
+  = ([0; 0; 0; 1; 4; 5],
+     [[([], VId 0, false)]; [([], VId 0, false)];
+      [([VId 0], VId 0, false); ([VId 4], VId 5, false)];
+      [([VId 0], VInt 3, false); ([VId 4], VInt 7, false)]; []; [([], VId 4, false)]]).
+Proof. exact MixedProofs.mex_mixed. Qed.
+
+(* ================================================================== *)
+(** * The rebuild loop's control facts, regenerated from the source ([gen/ParFacts.v])
+
+    [rebuild_loop_exit_condition], [rebuild_loop_order], [rebuild_break_flags],
+    [rebuild_guard_run_rules], [rebuild_guard_flush] are regenerated on every run from
+    egglog-bridge/src/lib.rs ([EGraph::rebuild] native branch, [run_rules_inner],
+    [flush_updates_inner]). [rebuild_loop x] is the model's loop under exit discipline [x];
+    [run_with x] the term-level interpreter that uses it. *)
+Require Import Verif.gen.ParFacts Verif.Egg.RepFacts Verif.Egg.RebuildBound.
+
+(** this pins [rebuild_loop]: "until nothing changed" is [Model.rebuild]; a cap of k is at most
+    k passes and then falls out silently *)
+Theorem c01_rebuild_loop_unfold : forall fuel sg s,
+  rebuild_loop ExitWhenNoChange fuel sg s = rebuild fuel sg s /\
+  (forall cap, rebuild_loop (ExitAfterCap cap) fuel sg s = rebuild_capped cap sg s) /\
+  rebuild_capped 0 sg s = Ok (s, false) /\
+  (forall cap, rebuild_capped (S cap) sg s =
+     bind (rebuild_pass sg s) (fun '(s', more, e) =>
+       if more then bind (rebuild_capped cap sg s') (fun '(s'', e') => Ok (s'', orb e e'))
+       else Ok (s', e))).
+Proof. intros. repeat split. Qed.
+Print Assumptions c01_rebuild_loop_unfold.
+
+(** the source's loop has NO iteration cap: it leaves only when nothing changed *)
+Theorem c01_source_loop_exit : rebuild_loop_exit_condition = ExitWhenNoChange.
+Proof. exact RebuildBound.source_loop_exit. Qed.
+Print Assumptions c01_source_loop_exit.
+
+(** under the source's exit discipline the loop reaches the fixpoint, on EVERY signature: it
+    terminates within the model's fuel, without panic, in a canonical database *)
+Theorem c01_rebuild_fix : forall sg n s, WFxm s -> length (tabs s) = n ->
+  exists s' e, rebuild_loop rebuild_loop_exit_condition (rebuild_fuel s) sg s = Ok (s', e) /\ c04_inv n s'.
+Proof. exact RebuildBound.source_rebuild_fix. Qed.
+Print Assumptions c01_rebuild_fix.
+
+(** [c01_run_ok] / [c01_sound] / [c01_complete] for the interpreter whose loop is the
+    regenerated one *)
+Theorem c01_source_run_ok : forall n sg cs, Forall (fun m => m = MUnionId) sg ->
+  exists s, run_with rebuild_loop_exit_condition sg (init n) cs = Ok s.
+Proof. exact RebuildBound.source_run_ok. Qed.
+Print Assumptions c01_source_run_ok.
+
+Theorem c01_source_sound : forall n sg cs s t1 t2 v, Forall (fun m => m = MUnionId) sg ->
+  run_with rebuild_loop_exit_condition sg (init n) cs = Ok s ->
+  eval s t1 = Some v -> eval s t2 = Some v -> CC (unions_of cs) t1 t2.
+Proof. exact RebuildBound.source_sound. Qed.
+Print Assumptions c01_source_sound.
+
+Theorem c01_source_complete : forall n sg cs s t1 t2 v1 v2,
+  Forall (fun m => m = MUnionId) sg -> cmds_okb n cs = true ->
+  run_with rebuild_loop_exit_condition sg (init n) cs = Ok s ->
+  CC (unions_of cs) t1 t2 -> eval s t1 = Some v1 -> eval s t2 = Some v2 -> v1 = v2.
+Proof. exact RebuildBound.source_complete. Qed.
+Print Assumptions c01_source_complete.
+
+(** containers -> tables -> refresh -> timestamp, once each per pass *)
+Theorem c01_source_loop_order :
+  before StepContainers StepTables rebuild_loop_order = true /\
+  before StepTables StepRefresh rebuild_loop_order = true /\
+  before StepRefresh StepIncTs rebuild_loop_order = true /\
+  length rebuild_loop_order = 4.
+Proof. exact RebuildBound.source_loop_order. Qed.
+Print Assumptions c01_source_loop_order.
+
+(** the loop is left exactly when no container changed, no table row was re-keyed and no row was
+    refreshed *)
+Theorem c01_source_break_iff_nothing_changed : forall c t r,
+  forallb (fun f => negb (match f with FlagContainers => c | FlagTables => t | FlagRefreshed => r end))
+          rebuild_break_flags = true
+  <-> (c = false /\ t = false /\ r = false).
+Proof. exact RebuildBound.source_break_iff_nothing_changed. Qed.
+Print Assumptions c01_source_break_iff_nothing_changed.
+
+(** both call sites (after a rule iteration, after a flush) rebuild exactly when the union-find grew *)
+Theorem c01_source_rebuild_guards :
+  rebuild_guard_run_rules = RebuildIffUfGrew /\ rebuild_guard_flush = RebuildIffUfGrew.
+Proof. exact RebuildBound.source_rebuild_guards. Qed.
+Print Assumptions c01_source_rebuild_guards.
+
+(** A capped loop is NOT complete (the red-team patch "rebuild loop capped at N passes"): witness
+    cap 3 — TopA ~ f^3(a), TopB ~ f^3(b) asserted, then a ~ b: level i of the towers is merged by
+    pass i, the rows of TopA/TopB are re-keyed by pass 4, which the capped loop never runs. *)
+Theorem c01_capped_loop_refuted :
+  exists cs s t1 t2 v1 v2, cmds_okb 5 cs = true /\
+    run_with (ExitAfterCap 3) (repeat MUnionId 5) (init 5) cs = Ok s /\
+    CC (unions_of cs) t1 t2 /\ eval s t1 = Some v1 /\ eval s t2 = Some v2 /\ v1 <> v2.
+Proof. exact RebuildBound.capped_loop_refuted. Qed.
+Print Assumptions c01_capped_loop_refuted.
+
+(** ... and for every cap < 7: [cap] passes miss the chain of height [cap], [cap+1] passes do not,
+    the uncapped loop never does *)
+Example c01_capped_loop_small_caps :
+  forallb (fun cap => misses (ExitAfterCap cap) cap && negb (misses (ExitAfterCap (S cap)) cap)
+                      && negb (misses ExitWhenNoChange cap))%bool (seq 0 7) = true.
+Proof. exact RebuildBound.misses_small_caps. Qed.
+
+(** Pass bound, ANY signature, any state with ids in range: the loop executes [k] passes with
+    [k + (classes after) <= (classes before) + 1] (every non-final pass merges two classes);
+    exactly [k] passes are needed (fuel [k] gives the same result, any smaller fuel runs out). *)
+Theorem c01_rebuild_pass_bound : forall sg fuel s, WFxm s -> nroots (uf s) < fuel ->
+  exists s' e k, rebuild fuel sg s = Ok (s', e) /\ rebuild_passes fuel sg s = Ok k /\
+    k + nroots (uf s') <= S (nroots (uf s)) /\
+    rebuild k sg s = Ok (s', e) /\ (forall k', k' < k -> rebuild k' sg s = OutOfFuel).
+Proof. exact RebuildBound.rebuild_pass_bound. Qed.
+Print Assumptions c01_rebuild_pass_bound.
+
+(** the bound is attained: chain of height 3 — 4 passes, 8 classes before, 5 after *)
+Example c01_pass_count_example :
+  bind (run Ex.sg (init 4) (firstn 3 Ex.cs1)) (fun s =>
+  bind (uf_union (uf s) 0 4) (fun p' =>
+  let s3 := mkSt p' (tabs s) (wit s) in
+  bind (rebuild (rebuild_fuel s3) Ex.sg s3) (fun '(s4, _) =>
+  bind (rebuild_passes (rebuild_fuel s3) Ex.sg s3) (fun k =>
+  Ok (k, nroots (uf s3), nroots (uf s4))))))
+  = Ok (4, 8, 5).
+Proof. exact RebuildBound.ex_pass_count. Qed.
